@@ -52,6 +52,11 @@ func (cl *Cluster) Group(name string) *Group {
 
 func (cl *Cluster) coordVariants(r *Req, key string) []gx.Variant {
 	g := cl.Group(key)
+	if cl.CoordDown {
+		return []gx.Variant{cl.wrap(r, "FindCoordinator", "down", func() {
+			cl.Respond(r, &sarama.FindCoordinatorResponse{Version: r.Version, Err: sarama.ErrConsumerCoordinatorNotAvailable})
+		})}
+	}
 	vs := []gx.Variant{cl.wrap(r, "FindCoordinator", "ok", func() {
 		n := cl.node(g.Coordinator)
 		cl.Respond(r, &sarama.FindCoordinatorResponse{Version: r.Version, Coordinator: sarama.VerifNewBroker(n.ID, n.Addr)})
